@@ -261,7 +261,8 @@ func genTree(r *Rng) []PNode {
 		case x < 97:
 			ups := strings.Repeat("../", depth)
 			targets := []string{"a", "b", "d", "d/a", "nonexist", ".", ups + "a", "../" + ups + "src-evil/secret", "../" + ups + "ext/file", "../" + ups + "ext/dir",
-				"../" + ups + "ext/chain", "../" + ups + "outside.txt", "@ARENA@/p/src/a", "@ARENA@/p/ext/file", "@ARENA@/p/ext/dir", ups + "d/../a", "../" + ups + "src/a", ups + "foo", "../" + ups + "ext/dir/sub"}
+				"../" + ups + "ext/chain", "../" + ups + "outside.txt", "@ARENA@/p/src/a", "@ARENA@/p/ext/file", "@ARENA@/p/ext/dir", ups + "d/../a", "../" + ups + "src/a", ups + "foo", "../" + ups + "ext/dir/sub",
+				"@ARENA@/p/src/../outside.txt", "@ARENA@/p/src/d/../../ext/file", "@ARENA@/p/src/../src-evil/secret", "@ARENA@/p/src/d/../a"}
 			nodes = append(nodes, PNode{Path: p, Kind: "l", Data: r.Pick(targets)})
 		default:
 			nodes = append(nodes, PNode{Path: p, Kind: "s"})
@@ -804,6 +805,40 @@ func init() {
 				}
 				if canon != base {
 					rep.AddOracle(OracleFailure{Property: "C16", Lane: "pack-spelling", What: fmt.Sprintf("slug for spelling %q (cwd %q) differs from the slug for the absolute path (result %s)", in["src"], in["cwd"], out.class), Input: in, Signature: v.sig, ReqIdx: len(reqs)})
+				}
+			}
+			// one Packer value reused for two Pack calls on different roots (options incl. a relative
+			// allow-list prefix): the second result must be what a fresh Packer produces
+			{
+				arena2 := filepath.Join(work, fmt.Sprintf("t%05d", a), "other")
+				if materialiseP(arena2, c.Nodes) == nil {
+					mkP := func() *slug.Packer {
+						opts := []slug.PackerOption{slug.AllowSymlinkTarget("../ext"), slug.AllowSymlinkTarget("../outside.txt")}
+						if c.Ignore {
+							opts = append(opts, slug.ApplyTerraformIgnore())
+						}
+						p, _ := slug.NewPacker(opts...)
+						return p
+					}
+					packWith := func(p *slug.Packer, src string) string {
+						var buf bytes.Buffer
+						m, err := p.Pack(src, &buf)
+						o := packOut{class: classify(err), meta: m}
+						if err == nil {
+							o.entries, o.sizes, _ = decodeSlug(buf.Bytes())
+						}
+						return canonPack(o)
+					}
+					fresh := packWith(mkP(), arena2+"/p/src")
+					shared := mkP()
+					packWith(shared, abs)
+					second := packWith(shared, arena2+"/p/src")
+					if second != fresh {
+						rep.AddOracle(OracleFailure{Property: "C16", Lane: "pack-spelling", What: "a Packer that packed another directory before produces a different slug than a fresh Packer with the same options (relative allow-list prefix)", Input: c})
+					}
+					rep.Count("shared-packer")
+					chmodAll(filepath.Dir(arena2))
+					os.RemoveAll(filepath.Dir(arena2))
 				}
 			}
 			// concurrent Pack calls of the same tree
